@@ -255,6 +255,30 @@ def rf9(run):
             if not ok:
                 viol(r, 'integer memory operand', 'operand %d of %s is a %d-bit integer; the pattern also matches %s%d-bit memory, whose '
                      'upper bits the instruction [%s] does not extend the way a load would' % (k + 1, code, w, {'s': 'signed ', 'u': 'unsigned '}.get(sign, 'any '), 8 << size, r['rep']))
+    # (o) operands rewritten at emission time: the pattern was selected for the value before the rewrite
+    oi = gen.func('out_insn')
+    rewrites = []
+    for x in oi.walk():
+        if x['k'] == 'IfStmt' and 'insn->code ==' in F.src(x['c'][0]):
+            for y in F.walk(x['c'][1]):
+                if y['k'] == 'BinaryOperator' and y['op'] == '=' and re.fullmatch(r'insn->ops\[\d\]\.u\.[ui]', F.src(F.strip(y['c'][0]))):
+                    mcode = re.search(r'insn->code == (MIR_[A-Z0-9_]+)', F.src(x['c'][0]))
+                    if mcode:
+                        rewrites.append((mcode.group(1), int(F.src(F.strip(y['c'][0]))[10]), F.src(y['c'][1]), y['l']))
+    for code_, k_, how, ln_ in rewrites:
+        grows = '+' in how
+        for r in rows:
+            if r['code'] != code_:
+                continue
+            toks = pat_tokens(r['pat'])
+            if toks is None or k_ >= len(toks) or not re.fullmatch(r'i[0-3]', toks[k_]):
+                continue
+            ok = not (grows and toks[k_] in ('i0', 'i1'))
+            run.ob(rule, ('emit-rewrite', r['line']), ok, {'opcode': code_, 'operand': k_, 'pattern class': toks[k_], 'rewritten at emission as': how[:60]})
+            if not ok:
+                viol(r, 'immediate class vs emission-time rounding', 'out_insn replaces operand %d of %s by %s after the pattern was chosen for the '
+                     'original value: a value that fits the %s-bit class %s (e.g. 120) no longer fits after the rounding (128) and is emitted '
+                     'truncated' % (k_ + 1, code_, how[:50], {'i0': 8, 'i1': 16}[toks[k_]], toks[k_]))
     # (n) FP less-than forms are rewritten before selection
     tm = gen.func('target_machinize')
     swapped = {}
